@@ -70,6 +70,7 @@ class Chains:
         ops = ["shift_common", "shift_common_v", "append", "update", "filtered", "copy", "reindexed_map",
                "column_stack", "set_update", "get", "items", "common_rowids", "abscissae", "eq", "to_array",
                "append", "update", "filtered", "reindexed_map"]
+        ops += ["extra"]
         if not big:
             ops += ["reindexed_default", "sparsity", "cube_shape"]
         if nd == 2:
@@ -245,6 +246,29 @@ class Chains:
     def op_cube_shape(self, idx, U):
         if len(idx.shape) == 1 and all(v >= 0 for v in U) and idx.common >= 0:
             self.rec.query(idx, "cube_shape")
+
+    def op_extra(self, idx, U):
+        """operations beyond the listed properties (judged under owner X00: notes, never violations)"""
+        rnd = self.rnd
+        r = rnd.random()
+        hc = () if len(idx.shape) == 1 else (rnd.randrange(max(1, idx.shape[1])),)
+        if len(idx.shape) == 2 and idx.shape[1] == 0:
+            return
+        if r < 0.25:
+            self.rec.query(idx, "get_noforce", key=(rnd.choice(U + [idx.common]),) + hc)
+        elif r < 0.45:
+            self.rec.query(idx, "items_noforce")
+        elif r < 0.55:
+            self.rec.query(idx, "ndim")
+        elif r < 0.8:
+            others = [idx] + [self.rand_index(U, idx.shape) for _ in range(rnd.randint(0, 2))]
+            self.rec.common_common(others)
+        else:
+            # set_if on a scratch copy (it is a raw mutator and may leave the well-formed domain)
+            scratch = canonical(self.iindex, dense_of(idx), idx.common)
+            key = (rnd.choice(U),) + hc
+            rows = rnd.choice([None, [], self.rand_rows(idx.shape[0])])
+            self.rec.set_if(scratch, key, rows, copy=rnd.random() < 0.5)
 
     def op_eq(self, idx, U):
         rnd = self.rnd
